@@ -592,7 +592,8 @@ def fam_cluster(tier, base):
     sel = []
     for x in dict.fromkeys(r.tagged("INPUT")):
         d = json.loads(x)
-        d["every"] = every
+        # deployments make 30-60 external calls: sample their placements; every other operation: all placements
+        d["every"] = every if d["op"]["kind"] == "create" else 1
         sel.append(json.dumps(d))
     with open(inputs, "w") as f:
         f.write("\n".join(sel) + "\n")
@@ -606,7 +607,7 @@ def fam_cluster(tier, base):
     return dict(trace=trace, viols=viols, states=r.distinct, transitions=r.generated, configs=[cfg, "Trace_Cluster.cfg"], window=80,
                 traces={"*": runs, "C14": crashes}, samples={"*": [json.loads(x) for x in lines[:2]]},
                 nontrivial={"C10": runs, "C11": faults, "C12": cnt('"kind":"create","op":"op"'), "C13": cnt('"obs":['), "C14": crashes, "C20": cnt('"target":"lock"'), "C22": runs, "C30": cnt('"ev":"Call","kind":"lambda"')},
-                notes="%d TLC-enumerated scenarios (node layout x pre-deployed workloads x operation); each run fault-free and then with every %s single-fault / crash placement among its external calls: %d runs, %d injected failures, %d crashes followed by recovery in a fresh core instance" % (len(sel), "%d-th" % every if every > 1 else "", runs, faults, crashes))
+                notes="%d TLC-enumerated scenarios (node layout x pre-deployed workloads x operation); each run fault-free and then with every single-fault placement (deployments: every %s single-fault / crash placement) among its external calls: %d runs, %d injected failures, %d crashes followed by recovery in a fresh core instance" % (len(sel), "%d-th" % every if every > 1 else "", runs, faults, crashes))
 
 
 _A_CL = ["real calcium.Calcium on an embedded etcd with the real cobalt manager + cpumem plugin and a real bbolt WAL; store, manager and WAL are wrapped through the verif hook, engines are stateful fakes substituted on every node/workload",
